@@ -13,6 +13,14 @@ struct Input {
     a: i32,
 }
 
+/// an input that is shareable (Sync) but cannot itself be sent to another thread: data seen through a lock guard
+struct Locked(std::sync::MutexGuard<'static, i32>);
+impl Serialize for Locked {
+    fn serialize<S: serde::Serializer>(&self, s: S) -> Result<S::Ok, S::Error> {
+        s.serialize_i32(*self.0)
+    }
+}
+
 fn main() {
     is_send_sync::<RuleSet>();
     is_send_sync::<Rule>();
@@ -32,4 +40,10 @@ fn main() {
     is_send(&ruleset.evaluate_value(&value));
     is_send(&ruleset.evaluate(&input));
     let _ = input.a;
+    // "whenever the input is shareable": Sync is enough, the input is only borrowed
+    let lock: &'static std::sync::Mutex<i32> = Box::leak(Box::new(std::sync::Mutex::new(5)));
+    let locked = Locked(lock.lock().unwrap());
+    is_send(&ruleset.evaluate(&locked));
+    let shared: &'static [Option<&'static str>] = &[Some("a"), None];
+    is_send(&ruleset.evaluate(&shared));
 }
